@@ -192,7 +192,7 @@ def hostile_debs(chk):
     tables, _ = oracle_args(chk, bufs)
     mcases = [("debload", [b] + t) for b, t in zip(bufs, tables)]
     model = chk.run_model(mcases)
-    chk.compare("hostile-debs", mcases, first, model, nontrivial=lambda c, r: r != "err", kernel=False)
+    chk.compare("hostile-debs", mcases, first, model, nontrivial=lambda c, r: r != "err", kernel=False, spec=False)
     again = chk.run_impl(cases)
     for c, a, b in zip(cases, first, again):
         if a in ("panic", "timeout") or a.startswith("runner-died"):
